@@ -1,12 +1,35 @@
 """Stand-in for the absent C++ extension `mockturtle_wrapper`. ASSUMPTION, listed in evidence.
 
 enumerate_cuts(bench_text, cut_size, cut_limit, fanin_limit) -> dict[node_label, list[list[leaf_label]]]
-A plain bottom-up k-feasible cut enumeration over the bench netlist. The family can be
-perturbed through VERIF_CUT_MODE (all | shuffled:<seed> | thinned:<seed>) because C04
-quantifies over whatever valid family the enumerator supplies."""
+
+The return format follows the repository's own test of the real extension
+(/repo/tests/extensions/mockturtle_wrapper/test_cuts.py) and its C++ source
+(/repo/extensions/mockturtle_wrapper/src/cut_enumerates.hpp):
+  * one key per node INCLUDING the primary inputs (an input has exactly its unit cut [[x]]);
+  * every gate's list ends with its unit (trivial) cut [g];
+  * leaves inside a cut are ordered by node index (inputs in INPUT order, then gates in definition order);
+  * the non-trivial cuts of a gate are the unions of one cut per fan-in (unit cuts included), at most
+    `cut_size` leaves, dominated cuts removed, kept sorted by size (a new cut is placed before the
+    existing cuts of the same size) -- this reproduces the expected value of test_cuts.py exactly;
+  * at most cut_limit-1 non-trivial cuts per node are kept (priority-cut limit), and the cuts of a node are
+    built only from the cuts its fan-ins KEPT.  Hence every family returned here is closed: for every cut C
+    of n, each fan-in of n is a leaf of C or has itself a kept cut inside C.  `minimize_subcircuits` relies
+    on this closure (it simulates a cone from the node sets of the sub-cuts of C).
+The structural hashing of mockturtle's klut network (two gates with equal function and fan-ins share a
+node, so one label vanishes from the result) is NOT emulated.
+
+C04 quantifies over whatever valid family the enumerator supplies, so the family can be perturbed through
+VERIF_CUT_MODE:
+  all               the family described above
+  shuffled:<seed>   same family, the list of every node in a seeded random order (unit cut anywhere)
+  thinned:<seed>    every node keeps each non-trivial cut only with probability 0.6 BEFORE its fan-outs are
+                    processed (what a smaller cut_limit does), so the family stays closed
+"""
+import itertools
 import os
 import random
 import re
+import zlib
 
 
 def _parse(text):
@@ -30,42 +53,55 @@ def _parse(text):
     return inputs, gates, order
 
 
+def _rng(mode_seed, label):
+    return random.Random((int(mode_seed) << 32) ^ zlib.crc32(label.encode('utf-8')))
+
+
 def enumerate_cuts(bench_text, cut_size=5, cut_limit=20, fanin_limit=10, *a, **k):
     inputs, gates, order = _parse(bench_text)
-    done = {}
-    cuts = {i: [frozenset([i])] for i in inputs}
-
-    def visit(n):
-        if n in cuts:
-            return
-        stack = [n]
-        while stack:
-            x = stack[-1]
-            if x in cuts:
-                stack.pop()
-                continue
-            pend = [o for o in gates.get(x, []) if o not in cuts]
-            if pend:
-                stack.extend(pend)
-                continue
-            ops = gates.get(x, [])
-            acc = [frozenset()]
-            for o in ops:
-                acc = list({a | c for a in acc for c in cuts[o] if len(a | c) <= cut_size})
-            res = [frozenset([x])] + sorted((c for c in set(acc) if c and c != frozenset([x])), key=lambda c: (len(c), sorted(c)))
-            cuts[x] = res[: cut_limit + 1]
-            stack.pop()
-
-    for g in order:
-        visit(g)
     mode = os.environ.get('VERIF_CUT_MODE', 'all')
+    kind, _, seed = mode.partition(':')
+    seed = seed or '0'
+
+    # processing order: a gate is created once all its operands exist (what lorina's reader does)
+    index = {x: i for i, x in enumerate(inputs)}
+    topo, pending = [], list(order)
+    while pending:
+        rest = []
+        for g in pending:
+            if all(o in index for o in gates[g]):
+                index[g] = len(index)
+                topo.append(g)
+            else:
+                rest.append(g)
+        if len(rest) == len(pending):
+            raise ValueError('bench text is cyclic or uses undefined signals: %r' % rest)
+        pending = rest
+
+    kept = {x: [frozenset([x])] for x in inputs}        # cuts a node offers to its fan-outs (unit cut last)
+    for g in topo:
+        ops = gates[g]
+        found = []
+        if 0 < len(ops) <= fanin_limit:
+            for combo in itertools.product(*[kept[o] for o in ops]):
+                new = frozenset().union(*combo)
+                if len(new) > cut_size:
+                    continue
+                if any(c <= new for c in found):
+                    continue                              # dominated by an existing cut
+                found = [c for c in found if not new <= c]
+                pos = next((i for i, c in enumerate(found) if len(c) >= len(new)), len(found))
+                found.insert(pos, new)
+        found = found[: max(cut_limit - 1, 0)]
+        if kind == 'thinned':
+            r = _rng(seed, g)
+            found = [c for c in found if r.random() < 0.6]
+        kept[g] = found + [frozenset([g])]
+
     out = {}
-    for g in order:
-        fam = [sorted(c) for c in cuts[g] if c != frozenset([g])]
-        if mode.startswith('shuffled:'):
-            random.Random(int(mode.split(':')[1]) ^ hash(g) & 0xffff).shuffle(fam)
-        elif mode.startswith('thinned:'):
-            r = random.Random(int(mode.split(':')[1]) ^ hash(g) & 0xffff)
-            fam = [c for c in fam if r.random() < 0.6]
-        out[g] = fam
+    for n in inputs + topo:
+        fam = [sorted(c, key=index.__getitem__) for c in kept[n]]
+        if kind == 'shuffled':
+            _rng(seed, n).shuffle(fam)
+        out[n] = fam
     return out
